@@ -223,9 +223,17 @@ def run(tier: str, seed: int) -> Tuple[Stats, str, List[str], Dict[str, Any]]:
                         bad.append((i, j, f"DNSCache.get found={g2 is a}, identity says {want}"))
         else:
             sa = {a}
+            # the consumer of question identity: the duplicate-question history (a question asked a moment ago is the one
+            # being asked now iff they are the same question)
+            from zeroconf._history import QuestionHistory
+            hist = QuestionHistory()
+            hist.add_question_at_time(a, 1000.0, set())
             for j in range(nrec, n):
                 if (objs[j] in sa) != (ia == idents[j]):
                     bad.append((i, j, "question set membership disagrees with identity"))
+                asked = hist.suppresses(objs[j], 1500.0, set())
+                if bool(asked) != (ia == idents[j]):
+                    bad.append((i, j, f"question history: asked 500 ms ago is {bool(asked)}, same question: {ia == idents[j]}"))
         return n, out, bad[:10]
 
     results = pmap(row, list(range(n)))
